@@ -1,5 +1,6 @@
 import EaselModel.Core.Proto
 import EaselModel.Random.Model
+import EaselModel.Random.Choose
 /-! Line-protocol driver for the C09 model. -/
 open EaselModel EaselModel.Proto EaselModel.Random EaselModel.MTP
 
@@ -43,22 +44,8 @@ def parseBitsList (s : String) : List Float :=
     | some n => some (Float.ofBits (UInt64.ofNat n))
     | none => none
 
-/-- esl_rnd_DChoose over binary64 -/
-def dchoose (roll : Float) (p : List Float) : Option Nat :=
-  let norm := p.foldl (· + ·) 0.0
-  let rec go (ps : List Float) (sum : Float) (i : Nat) : Option Nat :=
-    match ps with
-    | [] => none
-    | q :: rest => let sum := sum + q; if roll < sum / norm then some i else go rest sum (i+1)
-  go p 0.0 0
-
 def dchooseCDF (roll : Float) (cdf : List Float) : Option Nat :=
-  let last := cdf.getLastD 0.0
-  let rec go (cs : List Float) (i : Nat) : Option Nat :=
-    match cs with
-    | [] => none
-    | c :: rest => if roll < c / last then some i else go rest (i+1)
-  go cdf 0
+  dchooseCDFgo roll (cdf.getLastD 0.0) cdf 0
 
 def step (s : S) (line : String) : S × String :=
   let ws := words line
